@@ -24,6 +24,13 @@ class _Continue(Exception):
     pass
 
 
+class _Goto(Exception):
+    def __init__(self, label_id, name):
+        Exception.__init__(self, "goto")
+        self.label_id = label_id
+        self.name = name
+
+
 class _Return(Exception):
     def __init__(self, v):
         self.v = v
@@ -366,9 +373,25 @@ class Eval:
         k = n.get("kind")
         ks = A.kids(n)
         if k == "CompoundStmt":
+            i = 0
+            while i < len(ks):
+                try:
+                    self.run(ks[i])
+                except _Goto as g:
+                    # a jump to a label that is a statement of this very block resumes there; others propagate outwards
+                    tgt = [j for j, s_ in enumerate(ks) if s_.get("kind") == "LabelStmt" and (s_.get("declId") == g.label_id or (g.name and s_.get("name") == g.name))]
+                    if not tgt:
+                        raise
+                    i = tgt[0]
+                    continue
+                i += 1
+            return
+        if k == "LabelStmt":
             for s in ks:
                 self.run(s)
             return
+        if k == "GotoStmt":
+            raise _Goto(n.get("targetLabelDeclId"), None)
         if k == "NullStmt":
             return
         if k == "DeclStmt":
@@ -492,6 +515,7 @@ class Eval:
             raise Unknown("arity mismatch", fn)
         saved = self.env
         self.env = dict(saved)
+        own = {p["id"] for p in ps} | {d["id"] for d in A.walk(unit.body(fn)) if d.get("kind") == "VarDecl"}
         for p, a in zip(ps, args):
             ct = ctype(A.qtype(p))
             self.env[p["id"]] = wrap(a, ct) if ct[0] in ("int", "ptr") else a
@@ -504,7 +528,13 @@ class Eval:
             if rt[0] == "int" and isinstance(r, int):
                 r = wrap(r, rt)
         finally:
+            # a callee that was handed the address of a caller's variable (hooks model `&x` as a token and route
+            # deref/store of the token to env[x]) has written the caller's slot in its own frame: carry that back
+            callee = self.env
             self.env = saved
+            for i_, v_ in callee.items():
+                if i_ in saved and i_ not in own and saved[i_] is not v_ and saved[i_] != v_:
+                    saved[i_] = v_
         return r
 
 
